@@ -1,5 +1,6 @@
 """Shared by the whole-packet property checks: generation of groups (class tables + operations), conversion of
 canonical outcomes back to generator values, small helpers for the oracles."""
+import json
 import random
 from common import *
 import decl, gen, pktcases
@@ -118,3 +119,39 @@ def leaf_violations(table, v, path=''):
         elif b[0] == 'opt' and x is not None:
             elem(b[1], x, where)
     return out
+
+
+def generic_replay(f, extra_header=''):
+    """Re-run the concrete input of a recorded failure on the implementation as it is now: the classes are defined from the
+    recorded source, the recorded bytes are parsed (and re-serialized) and/or the recorded value is constructed and serialized.
+    Returns (still_fails, info): still_fails is True when the recorded observation is reproduced (or cannot be compared)."""
+    import re as _re, os as _os
+    from common import run_impl, VERIF
+    src = f.get('classes') or f.get('classes_b') or (f.get('cls') if isinstance(f.get('cls'), str) and 'class ' in f.get('cls', '') else None)
+    if not src:
+        return True, dict(note='this failure records no class source: re-run the check', failure=f)
+    names = _re.findall(r'^class (\w+)\(', src, _re.M)
+    cls = f.get('cls') if (isinstance(f.get('cls'), str) and f.get('cls') in names) else (names[-1] if names else None)
+    case = f.get('case') if isinstance(f.get('case'), dict) else {}
+    raw = f.get('raw') if isinstance(f.get('raw'), str) else case.get('raw')
+    off = f.get('offset', case.get('offset', 0)) or 0
+    value = f.get('value') if isinstance(f.get('value'), str) else (f.get('keywords') if isinstance(f.get('keywords'), str) else None)
+    cases = []
+    if raw is not None:
+        cases.append(dict(cls=cls, op='roundtrip', raw=raw, offset=off, record=True))
+    if f.get('packed') and isinstance(f.get('packed'), str):
+        cases.append(dict(cls=cls, op='roundtrip', raw=f['packed'], offset=0))
+    if value and value.startswith('K'):
+        cases.append(dict(cls=cls, op='pack', value={"py": value}))
+        cases.append(dict(cls=cls, op='default', value={"py": value}))
+    if not cases:
+        return True, dict(note='no concrete input recorded: re-run the check', failure=f)
+    res = run_impl(_os.path.join(VERIF, 'harness', 'impl_pkt.py'),
+                   dict(header=decl.HEADER_PY + extra_header, blocks=[dict(name='all', src=src)], modname='replay', cases=cases))
+    now = [dict(case={k: v for k, v in c.items() if k != 'record'}, outcome=o) for c, o in zip(cases, res['outcomes'])]
+    obs = f.get('observed')
+    same = None
+    if obs is not None:
+        same = any(json.dumps(n['outcome'], sort_keys=True) == json.dumps(obs, sort_keys=True) or str(obs) in json.dumps(n['outcome'])
+                   for n in now)
+    return (same is not False), dict(definitions=res['defs'], now=now, recorded=obs, reproduced=same, what=f.get('what'))
